@@ -183,6 +183,7 @@ VERIFS = {
     "both_pos": ([INT, INT], BOOL),
     "twice": ([INT], INT),
     "perhaps": ([STR], ("opt", STR)),
+    "echo": ([STR], STR),
 }
 
 PRELUDE = '''from enum import Enum
@@ -222,6 +223,12 @@ def both_pos(a: int, b: int) -> bool:
 def twice(a: int) -> int:
     """Double."""
     return a + a
+
+
+@verification
+def echo(text: str) -> str:
+    """Give the text back."""
+    return text
 
 
 @verification
@@ -282,6 +289,10 @@ Definition fn_model (f : text) (args : list value) : pyresult :=
     match args with
     | [a] => py_arith true a a
     | _ => Raise TypeErr end
+  else if text_eqb f (s2l "echo") then
+    match args with
+    | [v] => Val v
+    | _ => Raise TypeErr end
   else if text_eqb f (s2l "perhaps") then
     match args with
     | [v] => match py_len [v] with
@@ -305,7 +316,7 @@ Definition globals : list (text * value) :=
   [(s2l "len", VFun (s2l "len")); (s2l "is_ok", VFun (s2l "is_ok"));
    (s2l "opt_ok", VFun (s2l "opt_ok")); (s2l "both_pos", VFun (s2l "both_pos"));
    (s2l "twice", VFun (s2l "twice")); (s2l "perhaps", VFun (s2l "perhaps"));
-   (s2l "Color", VType (s2l "Color"));
+   (s2l "echo", VFun (s2l "echo")); (s2l "Color", VType (s2l "Color"));
    (s2l "Valid_names", VSet [VStr (s2l "a"); VStr (s2l "ab"); VStr (s2l "Hello")])].
 
 Definition mk_env (self : value) : env :=
@@ -315,14 +326,16 @@ Definition base_tenv : tenv :=
   [(s2l "len", TLen); (s2l "Valid_names", TSet (TPrim PStr));
    (s2l "is_ok", TVerif (s2l "is_ok")); (s2l "opt_ok", TVerif (s2l "opt_ok"));
    (s2l "both_pos", TVerif (s2l "both_pos")); (s2l "twice", TVerif (s2l "twice"));
-   (s2l "perhaps", TVerif (s2l "perhaps")); (s2l "Color", TEnumType (s2l "Color"))].
+   (s2l "perhaps", TVerif (s2l "perhaps")); (s2l "echo", TVerif (s2l "echo"));
+   (s2l "Color", TEnumType (s2l "Color"))].
 
 Definition verifs_model : list (text * fsig) :=
   [(s2l "is_ok", mkSig [TPrim PStr] (TPrim PBool));
    (s2l "opt_ok", mkSig [TOpt (TPrim PStr)] (TPrim PBool));
    (s2l "both_pos", mkSig [TPrim PInt; TPrim PInt] (TPrim PBool));
    (s2l "twice", mkSig [TPrim PInt] (TPrim PInt));
-   (s2l "perhaps", mkSig [TPrim PStr] (TOpt (TPrim PStr)))].
+   (s2l "perhaps", mkSig [TPrim PStr] (TOpt (TPrim PStr)));
+   (s2l "echo", mkSig [TPrim PStr] (TPrim PStr))].
 
 Definition enums_model : list (text * list text) :=
   [(s2l "Color", [s2l "Red"; s2l "Green"; s2l "Blue"])].
@@ -414,7 +427,7 @@ class MetaModel:
         for fname, (params, body, _kind) in self.functions.items():
             sig = ", ".join(f"{n}: {T_src(t)}" for n, t in params)
             out.append(f"@verification\ndef {fname}({sig}) -> bool:\n"
-                       f"    \"\"\"Check {fname}.\"\"\"\n    return {src(body)}\n\n\n")
+                       f"    \"\"\"Check {fname}.\"\"\"\n{body_src(body)}\n\n")
         out.append('__version__ = "dummy"\n__xml_namespace__ = "https://dummy.com"\n')
         return "".join(out)
 
@@ -488,6 +501,29 @@ def src(e) -> str:
                 body += "{" + src(p) + "}"
         return "f" + json.dumps(body).replace("\\u00e9", "é")
     raise ValueError(e)
+
+
+def body_src(body, indent="    ") -> str:
+    """Source of a function body: an expression spec (returned) or ("body", statements)."""
+    if body[0] != "body":
+        return f"{indent}return {src(body)}\n"
+    out = []
+    for st in body[1]:
+        if st[0] == "assign":
+            out.append(f"{indent}{st[1]} = {src(st[2])}\n")
+        else:
+            out.append(f"{indent}return {src(st[1])}\n")
+    return "".join(out)
+
+
+def cstmts(js) -> str:
+    out = []
+    for st in js:
+        if st["k"] == "assign":
+            out.append(f"(SAssign {ctext(st['x'])} {ctree(st['e'])})")
+        else:
+            out.append(f"(SReturn {ctree(st['e'])})")
+    return clist(out)
 
 
 def src_atom(e) -> str:
@@ -713,6 +749,75 @@ class ExprGen:
     def function_body(self, params):
         ctx = {"vars": [(("name", n), t) for n, t in params], "narrowed": set()}
         return self.gen_bool(ctx, self.rng.choice([1, 2, 2, 3]))
+
+    def function_stmts(self, params):
+        """Assignments to locals (some re-assigned with values of the same / Optional /
+        non-Optional / different type, some overwriting a parameter), then a return that uses
+        the locals. Returns (("body", statements), kind)."""
+        rng = self.rng
+        vars_ = [(("name", n), t) for n, t in params]
+        stmts = []
+        kind = "stmts"
+        n_loc = rng.choice([1, 1, 2, 3])
+        for k in range(n_loc):
+            ctx = {"vars": vars_, "narrowed": set()}
+            cands = [(e, t) for e, t in self.paths(ctx) if t[0] != "enumtype"]
+            if not cands:
+                break
+            e, t = rng.choice(cands)
+            r = rng.random()
+            if r < 0.15:
+                e, t = ("call", "len", [self.gen_str(ctx, 0)]), ("prim", "length")
+            elif r < 0.25:
+                e, t = self.gen_str(ctx, 1), STR
+            name = f"loc{k + 1}"
+            stmts.append(("assign", name, e))
+            vars_ = vars_ + [(("name", name), t)]
+            if rng.random() < 0.55:
+                # re-assignment; the recorded type stays the one of the first assignment
+                ctx = {"vars": vars_, "narrowed": set()}
+                base = t[1] if t[0] == "opt" else t
+                want = rng.choice(["same", "opt", "nonopt", "other", "other"])
+                def ok(u):
+                    if want == "same":
+                        return u == t
+                    if want == "opt":
+                        return u == ("opt", base)
+                    if want == "nonopt":
+                        return u == base or (base == STR and u == BRIEF)
+                    return True
+                c2 = [(e2, u) for e2, u in self.paths(ctx) if ok(u) and e2 != ("name", name)]
+                if c2:
+                    e2, u = rng.choice(c2)
+                    stmts.append(("assign", name, e2))
+                    kind = "stmts-reassign"
+            if rng.random() < 0.12 and params:
+                pn, pt = rng.choice(params)
+                ctx = {"vars": vars_, "narrowed": set()}
+                c3 = [(e2, u) for e2, u in self.paths(ctx)]
+                e2, u = rng.choice(c3)
+                stmts.append(("assign", pn, e2))
+                kind = "stmts-reassign"
+        ctx = {"vars": vars_, "narrowed": set()}
+        # prefer uses of the locals
+        locs = [(v, t) for v, t in vars_ if v[1].startswith("loc")]
+        if locs and rng.random() < 0.7:
+            v, t = rng.choice(locs)
+            if t[0] == "opt":
+                if rng.random() < 0.7:
+                    ret = ("or", [("isnone", v), self.gen_use(self.narrowed(ctx, v), v, t[1], 1)])
+                else:
+                    ret = self.gen_use(self.narrowed(ctx, v), v, t[1], 1)   # unguarded
+            elif t == ("prim", "length"):
+                ret = ("cmp", ">", v, ("const", 0))
+            else:
+                ret = self.gen_use(ctx, v, t, 1)
+            if rng.random() < 0.4:
+                ret = ("and", [ret, self.gen_bool(ctx, 1)])
+        else:
+            ret = self.gen_bool(ctx, 2)
+        stmts.append(("return", ret))
+        return ("body", stmts), kind
 
     def random_params(self):
         rng = self.rng
@@ -1031,3 +1136,50 @@ def run_units(workdir, name: str, units, timeout: int = 900, ncpu: int = 12):
         if aux.exists():
             aux.unlink()
     return out
+
+
+# ----------------------------------------------------------------------------- arity
+ARITY_TEMPLATES = {
+    "S": ["len({S}) > 0", "is_ok({S})", "({S}) in Valid_names", "({S}) == 'a'",
+          "is_ok(echo({S}))", "len(echo({S})) > 0", "all(x.name != ({S}) for x in self.items)",
+          "not self.b0 or len({S}) > 0", "self.b0 and is_ok({S})", "perhaps({S}) is None",
+          "perhaps({S}) is None or len(perhaps({S})) > 0", "opt_ok({S})"],
+    "I": ["({I}) > 0", "0 < ({I})", "both_pos({I}, 1)", "both_pos(1, {I})", "twice({I}) > 0",
+          "self.li0[{I}] > 0", "any(i > 0 for i in range(0, {I}))",
+          "self.item.compute({I}) > 0", "({I}) + 1 > 0", "len(self.s0) > ({I})",
+          "all(x.weight is None or x.weight > ({I}) for x in self.items)",
+          "twice(twice({I})) > 0"],
+    "B": ["{B}", "not ({B})", "self.b0 and ({B})", "({B}) or self.b0", "not self.b0 or ({B})",
+          "not ({B}) or self.b0", "all(({B}) for x in self.items)",
+          "any(self.b0 and ({B}) for i in range(0, 2))", "({B}) == True",
+          "self.oi0 is None or ({B})", "not (self.oi0 is not None) or ({B})"],
+}
+ARITY_OK = {"S": ["echo(self.s0)", "self.s0"], "I": ["twice(self.i0)", "self.item.compute(1)"],
+            "B": ["is_ok(self.s0)", "both_pos(self.i0, 1)", "opt_ok(self.os0)"]}
+ARITY_BAD = {"S": ["echo(self.s0, self.s0)", "echo()"],
+             "I": ["twice(self.i0, 1)", "twice()", "self.item.compute()",
+                   "self.item.compute(1, 2)", "len(self.s0, self.s0)", "len()"],
+             "B": ["is_ok()", "is_ok(self.s0, self.s0)", "both_pos(self.i0)",
+                   "both_pos(1, 2, 3)", "opt_ok()", "opt_ok(self.os0, self.os0)"]}
+# the type of the expression a template yields (all are bool) lets templates nest:
+# a B-template may be filled with another template
+
+
+def arity_invariant(rng, bad: bool, depth: int = None) -> str:
+    """A template nest with one call in the innermost hole; wrong arity iff ``bad``."""
+    if depth is None:
+        depth = rng.choice([1, 1, 2, 3])
+    import re
+
+    def level(template: str, lvl: int) -> str:
+        # loop variables are unique per nesting level (re-using the name of an enclosing loop
+        # crashes _translate, see docs/C07.md)
+        template = re.sub(r"\bx\b", f"x{lvl}", template)
+        return re.sub(r"\bi\b", f"i{lvl}", template)
+
+    hole = rng.choice(["S", "I", "B"])
+    inner = rng.choice((ARITY_BAD if bad else ARITY_OK)[hole])
+    text = level(rng.choice(ARITY_TEMPLATES[hole]), 0).replace("{" + hole + "}", inner)
+    for lvl in range(1, depth):
+        text = level(rng.choice(ARITY_TEMPLATES["B"]), lvl).replace("{B}", text)
+    return text
